@@ -5,8 +5,9 @@ UNITS = ["FactorNames = {}", "Powers = {}", "MaxFactors = 0", "Mags = {}", "Targ
          "HelperNames = {}", "Plan <- NoPlan"]
 BASE = dict(Systems="<- Sys_q", KTimes="<- KT_two", KConcs="<- KC_two", Wrongs="<- W_none", CPlans="<- Plans_two",
             TUnits='= {"s"}', KRegs="<- KRegs6", Outs="<- Outs_one", Modes='= {"inline", "named"}',
-            EqTemplates="= {}", EqWrongs="= {}")
-INV = ["RegistryIndependent", "WrittenIsPhysical", "RefusedOnlyIfWrongDimension", "KTypeOK", "KEmit"]
+            EqTemplates="= {}", EqWrongs="= {}", CallKinds="<- Calls_none", MaxCalls="= 0")
+INV = ["RegistryIndependent", "WrittenIsPhysical", "RefusedOnlyIfWrongDimension", "SolverHasNoMemory",
+       "SolverRefusesExactlyWrongDimensions", "KTypeOK", "KEmit"]
 def cfg(name, **kw):
     d = dict(BASE); d.update(kw)
     lines = ["INIT KInit", "NEXT KNext", "CONSTANTS"] + ["  " + x for x in UNITS] + ["  %s %s" % kv for kv in d.items()]
@@ -20,3 +21,7 @@ cfg("rates_t", Systems="<- Sys_all", KTimes="<- KT_all", KConcs="<- KC_all", CPl
     KRegs="<- KRegs6", Outs="<- Outs_one")
 cfg("regs_t", Systems='= {"bi", "chain"}', KTimes='= {"h"}', KConcs='= {"uM"}', CPlans='= {1}', KRegs="<- KRegs108", Outs="<- Outs_three",
     TUnits='= {"ms", "h"}')
+cfg("solver_q", Systems='= {"uni", "chain"}', KTimes='= {"s"}', KConcs='= {"M"}', KRegs="<- KRegs2", Modes='= {"solver"}',
+    CallKinds="<- Calls_all", MaxCalls="= 3")
+cfg("solver_t", Systems='= {"uni", "chain", "mix"}', KTimes='= {"s"}', KConcs='= {"M"}', KRegs="<- KRegs3", Modes='= {"solver"}',
+    CallKinds="<- Calls_all", MaxCalls="= 3")
